@@ -165,6 +165,7 @@ THEOREMS = [
     "IrVerif.PyTensor.C04_pytensor_f8_agree",
     "IrVerif.PyTensor.C04_ctor_accepts",
     "IrVerif.PyTensor.C04_pytensor_f8_halfulp",
+    "IrVerif.PyTensor.C04_pytensor_f8_decode_encode",
 ]
 ASSUMPTIONS = [
     "elements are modelled as bit patterns; numeric meaning of floats (NaN != NaN) is not modelled",
